@@ -2,7 +2,7 @@
 # usage: tools/seeded_check.sh C05 [checks...] — apply seeded/C05/patch.diff to /repo, run the demo and the checks, undo.
 P=$1; shift
 cd /verif
-checks="${@:-$P}"
+checks="${@:-${P:0:3}}"
 ( cd /tmp && PYTHONPATH=/repo/src timeout 600 /venv/bin/python /verif/seeded/$P/demo.py > /tmp/seed_demo_without.log 2>&1 ); without=$?
 git -C /repo apply $PWD/seeded/$P/patch.diff || { echo "patch does not apply to /repo"; exit 1; }
 ( cd /tmp && PYTHONPATH=/repo/src timeout 600 /venv/bin/python /verif/seeded/$P/demo.py > /tmp/seed_demo_with.log 2>&1 ); with=$?
@@ -19,7 +19,7 @@ git checkout -q -- evidence 2>/dev/null
 import json, sys, os
 p, wo, wi, results = sys.argv[1:5]
 f=f"/verif/seeded/{p}/meta.json"
-meta = json.load(open(f)) if os.path.exists(f) else {"property": p, "patch": "patch.diff", "demo": "demo.py"}
+meta = json.load(open(f)) if os.path.exists(f) else {"property": p[:3], "patch": "patch.diff", "demo": "demo.py"}
 meta["demo_exit_without_change_on_repo_head"] = int(wo); meta["demo_exit_with_change_on_repo_head"] = int(wi)
 meta.setdefault("check_history", []).append([l for l in results.split("\\n") if l])
 meta["check_results"] = [l for l in results.split("\\n") if l]
